@@ -408,14 +408,79 @@ func (e *walEnv) observeServer(n []int64, cdb *chain.ChainDB, c *c16Case, snap *
 	return n
 }
 
+// ---- journaling store: every committed transaction, bulk flush and direct write is one unit;
+// a crash leaves a prefix of the units of the operation in progress ----
+type jop struct {
+	del  bool
+	k, v []byte
+}
+type jdb struct {
+	db.DB
+	units [][]jop
+}
+
+func (d *jdb) Set(k, v []byte) {
+	d.units = append(d.units, []jop{{false, append([]byte{}, k...), append([]byte{}, v...)}})
+	d.DB.Set(k, v)
+}
+func (d *jdb) Delete(k []byte) {
+	d.units = append(d.units, []jop{{true, append([]byte{}, k...), nil}})
+	d.DB.Delete(k)
+}
+func (d *jdb) NewTx() db.Transaction { return &jtx{d: d} }
+func (d *jdb) NewBulk() db.Bulk      { return &jtx{d: d} }
+
+type jtx struct {
+	d   *jdb
+	ops []jop
+}
+
+func (t *jtx) Set(k, v []byte) {
+	t.ops = append(t.ops, jop{false, append([]byte{}, k...), append([]byte{}, v...)})
+}
+func (t *jtx) Delete(k []byte) { t.ops = append(t.ops, jop{true, append([]byte{}, k...), nil}) }
+func (t *jtx) Commit() {
+	if len(t.ops) == 0 {
+		return
+	}
+	t.d.units = append(t.d.units, t.ops)
+	for _, o := range t.ops {
+		if o.del {
+			t.d.DB.Delete(o.k)
+		} else {
+			t.d.DB.Set(o.k, o.v)
+		}
+	}
+	t.ops = nil
+}
+func (t *jtx) Flush()       { t.Commit() }
+func (t *jtx) Discard()     { t.ops = nil }
+func (t *jtx) DiscardLast() { t.ops = nil }
+
+// storeFromUnits builds a fresh store holding exactly the first n units.
+func storeFromUnits(t *testing.T, units [][]jop, n int) db.DB {
+	s := db.NewDB(db.MemoryImpl, t.TempDir())
+	for _, u := range units[:n] {
+		for _, o := range u {
+			if o.del {
+				s.Delete(o.k)
+			} else {
+				s.Set(o.k, o.v)
+			}
+		}
+	}
+	return s
+}
+
 type c16WalStep struct {
-	P    int     `json:"p,omitempty"`
-	Pre  []int64 `json:"pre"`
-	Post []int64 `json:"post"`
+	P     int       `json:"p,omitempty"`
+	Pre   []int64   `json:"pre"`
+	Post  []int64   `json:"post"`
+	Crash [][]int64 `json:"crash"` // what a restarted node reads after the first 1, 2, .. units of this operation only
 }
 
 func runWal(t *testing.T, c *c16Case) interface{} {
-	store := db.NewDB(db.MemoryImpl, t.TempDir()) // never closed: nothing is written to disk
+	store := &jdb{DB: db.NewDB(db.MemoryImpl, t.TempDir())} // never closed: nothing is written to disk
 	e := &walEnv{store: store, blocks: map[int]*types.Block{}, byHash: map[string]int64{}, byData: map[string]int64{}}
 	cdb, err := chain.VerifNewChainDBOnStore(store)
 	if err != nil {
@@ -436,7 +501,15 @@ func runWal(t *testing.T, c *c16Case) interface{} {
 					st = c16WalStep{P: 1}
 				}
 			}()
+			n0 := len(store.units)
 			e.exec(op)
+			for k := 1; k < len(store.units)-n0; k++ {
+				ccdb, err := chain.VerifNewChainDBOnStore(storeFromUnits(t, store.units, n0+k))
+				if err != nil {
+					panic(err)
+				}
+				st.Crash = append(st.Crash, e.observe(ccdb, c))
+			}
 			st.Pre = e.observe(e.cdb, c)
 			ncdb, err := chain.VerifNewChainDBOnStore(store) // restart
 			if err != nil {
